@@ -393,6 +393,21 @@ func runLoop(c *Case) []string {
 					_ = tc.Close()
 					o.peer = nil
 				}
+			case "kill":
+				// the descriptor is closed underneath the object; its number is given to something that can be neither
+				// polled nor read (a directory), as a descriptor reused by another part of the program might be
+				fd := o.f.RawFd()
+				_ = syscall.Close(fd)
+				nd, err := syscall.Open("/", syscall.O_RDONLY|syscall.O_DIRECTORY, 0)
+				if err != nil {
+					panic(err)
+				}
+				if nd != fd {
+					if err := syscall.Dup2(nd, fd); err != nil {
+						panic(err)
+					}
+					_ = syscall.Close(nd)
+				}
 			case "drain":
 				n := atoi(a[2])
 				b := make([]byte, n)
